@@ -199,6 +199,18 @@ func (p *Path) Find(m Matcher, before int) []Call {
 	return out
 }
 
+// FindTop is Find restricted to calls made by the function under analysis itself (not by inlined callees):
+// for sinks that must not be confused with the callees' own, separately checked sinks.
+func (p *Path) FindTop(m Matcher, before int) []Call {
+	var out []Call
+	for _, c := range p.Find(m, before) {
+		if c.Step.F == 0 {
+			out = append(out, c)
+		}
+	}
+	return out
+}
+
 // ReturnDV returns the dynamic value of result i at a Return exit.
 func (p *Path) ReturnDV(i int) (DV, bool) {
 	r, ok := p.Exit.(*ssa.Return)
